@@ -12,7 +12,10 @@ import (
 	"sort"
 )
 
-// StrListEncoder encodes string slice. Max bytes size for each string is 65536 bytes
+// MaxStrLen is the longest string (in bytes) that fits the 16-bit length prefix
+const MaxStrLen = 65535
+
+// StrListEncoder encodes string slice. Max bytes size for each string is 65535 bytes
 type StrListEncoder struct {
 	buf          []byte
 	reuseRecords bool
@@ -41,8 +44,8 @@ func (e *StrListEncoder) Encode(sl []string) []byte {
 	binary.BigEndian.PutUint32(e.buf, uint32(len(sl)))
 	offset := 4
 	for _, s := range sl {
-		if len(s) > 65536 {
-			panic(fmt.Errorf("cell value %q is too long (%d > 65536)", s[:40]+"...", len(s)))
+		if len(s) > MaxStrLen {
+			panic(fmt.Errorf("cell value %q is too long (%d > %d)", s[:40]+"...", len(s), MaxStrLen))
 		}
 		l := uint16(len(s))
 		binary.BigEndian.PutUint16(e.buf[offset:], l)
